@@ -362,12 +362,14 @@ impl VarNameMap {
                 let prev = std::mem::replace(&mut self.names[var as usize], name);
                 entry.insert(var);
                 if !prev.is_empty() {
+                    // release the old name (the key in `index` aliases `prev`)
+                    self.index.remove(&prev);
                     // SAFETY:
                     // 1. By the type invariant and since `prev` is not empty, it `prev` has been
                     //    created from a `Box<str>`
                     // 2. `prev` was removed from `self.names`, and its copy in `index` has been
-                    //    dropped since `entry.insert(var)`. By the type invariant, it follows that
-                    //    `prev` is the only reference.
+                    //    removed above. By the type invariant, it follows that `prev` is the
+                    //    only reference.
                     // 3. `str` is `Send`
                     drop(unsafe { Unowned::into_box(prev) });
                 }
